@@ -73,6 +73,17 @@ impl<'a, T: Read + Seek> QueueReader<'a, T> {
         })
     }
 
+    /// Upper limit for the number of points that the file can deliver for this point cloud.
+    /// Point clouds that store at least one bit per point cannot contain more points than the file has bits,
+    /// whatever the record count in the XML claims. Used to keep size hints of the iterators honest.
+    pub fn max_points(&self) -> u64 {
+        if self.all_zero_bits || self.pc.prototype.is_empty() {
+            u64::MAX
+        } else {
+            self.reader.logical_size().saturating_mul(8)
+        }
+    }
+
     /// Returns the number of complete and available points across all queues.
     pub fn available(&self) -> usize {
         if self.queues.is_empty() {
